@@ -87,6 +87,40 @@ func ruleClass(err error) string {
 	return "err"
 }
 
+// ctxFails counts the failing clauses of the header checks for header (bits, t) on the history
+// (times, bits genesis first): target range (when rng), difficulty, MTP, BIP94. The property fixes
+// accept/reject; which error is reported when several clauses fail is not protocol-defined, so such
+// rejections are reported as "reject:multi" on both sides.
+func ctxFails(p *chaincfg.Params, times []int64, bits []uint32, hb uint32, ht int64, rng bool) int {
+	n := 0
+	if rng {
+		t := blockchain.CompactToBig(hb)
+		if t.Sign() <= 0 || t.Cmp(p.PowLimit) > 0 {
+			n++
+		}
+	}
+	tip := hdrChain(times, bits)
+	c := cctx{p}
+	if want, err := blockchain.VerifCalcNextRequiredDifficulty(tip, time.Unix(ht, 0), c); err == nil && want != hb {
+		n++
+	}
+	if !(ht > blockchain.CalcPastMedianTime(tip).Unix()) {
+		n++
+	}
+	if p.EnforceBIP94 && !blockchain.VerifAssertNoTimeWarp(int32(len(times)), c.BlocksPerRetarget(),
+		time.Unix(ht, 0), time.Unix(times[len(times)-1], 0)) {
+		n++
+	}
+	return n
+}
+
+func coarsen(v string, fails int) string {
+	if v != "ok" && v != "assert" && fails >= 2 {
+		return "reject:multi"
+	}
+	return v
+}
+
 func execHard(f []string) string {
 	switch f[1] {
 	case "h2b":
@@ -132,7 +166,7 @@ func execHard(f []string) string {
 		if p.PowLimit.Cmp(limKeep) != 0 {
 			return "params-mutated"
 		}
-		return ruleClass(err)
+		return coarsen(ruleClass(err), ctxFails(p, times, bits, header.Bits, header.Timestamp.Unix(), false))
 	case "hsan":
 		raw, _ := hex.DecodeString(f[2])
 		var h wire.BlockHeader
@@ -146,10 +180,25 @@ func execHard(f []string) string {
 			flags = blockchain.BFNoPoWCheck
 		}
 		err := blockchain.CheckBlockHeaderSanity(&h, lim, fixedTime{time.Unix(i64(f[6]), 0)}, flags)
-		if re, ok := err.(blockchain.RuleError); ok && re.ErrorCode == blockchain.ErrUnexpectedDifficulty {
-			return "badTarget"
+		fails := 0
+		target := blockchain.CompactToBig(h.Bits)
+		if target.Sign() <= 0 || target.Cmp(lim) > 0 {
+			fails++
 		}
-		return ruleClass(err)
+		hh := h.BlockHash()
+		if flags == blockchain.BFNone && blockchain.HashToBig(&hh).Cmp(target) > 0 {
+			fails++
+		}
+		if i64(f[5]) != 0 {
+			fails++
+		}
+		if h.Timestamp.Unix() > i64(f[6])+blockchain.MaxTimeOffsetSeconds {
+			fails++
+		}
+		if re, ok := err.(blockchain.RuleError); ok && re.ErrorCode == blockchain.ErrUnexpectedDifficulty {
+			return coarsen("badTarget", fails)
+		}
+		return coarsen(ruleClass(err), fails)
 	case "nextn":
 		p := parseParams(f[2:11])
 		limKeep := new(big.Int).Set(p.PowLimit)
@@ -355,6 +404,8 @@ func realProcessHeaders(q *chaincfg.Params, hs []string) string {
 		return "err:new"
 	}
 	tip := *p.GenesisHash
+	accT := []int64{p.GenesisBlock.Header.Timestamp.Unix()}
+	accB := []uint32{p.GenesisBlock.Header.Bits}
 	var out []string
 	for k, tok := range hs {
 		tb := strings.Split(tok, ":")
@@ -370,6 +421,7 @@ func realProcessHeaders(q *chaincfg.Params, hs []string) string {
 				}
 			}
 		}
+		fails := ctxFails(p, accT, accB, h.Bits, h.Timestamp.Unix(), true)
 		_, err := chain.ProcessBlockHeader(&h, blockchain.BFNone, k%2 == 0)
 		v := ruleClass(err)
 		if re, ok := err.(blockchain.RuleError); ok && re.ErrorCode == blockchain.ErrUnexpectedDifficulty &&
@@ -378,8 +430,10 @@ func realProcessHeaders(q *chaincfg.Params, hs []string) string {
 		}
 		if v == "ok" {
 			tip = h.BlockHash()
+			accT = append(accT, h.Timestamp.Unix())
+			accB = append(accB, h.Bits)
 		}
-		out = append(out, v)
+		out = append(out, coarsen(v, fails))
 	}
 	return strings.Join(out, ",")
 }
